@@ -7,7 +7,6 @@ package fox
 import (
 	"cmp"
 	"fmt"
-	"reflect"
 )
 
 type Option interface {
@@ -266,7 +265,7 @@ func WithClientIPResolver(resolver ClientIPResolver) Option {
 // packages that use route annotation.
 func WithAnnotation(key, value any) RouteOption {
 	return routeOptionFunc(func(s sealedOption) error {
-		if !reflect.TypeOf(key).Comparable() {
+		if !isHashable(key) {
 			return fmt.Errorf("%w: annotation key is not comparable", ErrInvalidConfig)
 		}
 		if s.route.annots == nil {
@@ -275,6 +274,19 @@ func WithAnnotation(key, value any) RouteOption {
 		s.route.annots[key] = value
 		return nil
 	})
+}
+
+// isHashable reports whether key can be used as a map key. A statically comparable struct, array or interface type may
+// still hold a value that is not (e.g. a slice behind an interface field) and a nil key has no type to inspect, so the key
+// is hashed for real rather than inspected through reflection.
+func isHashable(key any) (ok bool) {
+	defer func() {
+		if recover() != nil {
+			ok = false
+		}
+	}()
+	_ = map[any]struct{}{key: {}}
+	return true
 }
 
 // DefaultOptions configure the router to use the [Recovery] middleware for the [RouteHandler] scope, the [Logger] middleware
